@@ -112,6 +112,18 @@ PROPS = {
               "Exploration, exhaustive over the 54-cell (schema mode x request mode x flavour x operation kind) matrix, random over documents: "
               "metadata sentinels must be absent when disabled, the resolver log must be empty under introspection-only, __typename must resolve.",
               "Sentinel names are unique to metadata; documents are generated, not enumerated."),
+    "C20": _p("vh-exec", "reference-executor trace (contained objects/fields) + hand-written hint table vs Response.cache_control; exhaustive law grid through BatchResponse::cache_control",
+              "Exploration: generated documents over S1 (object/field cache hints) reaching Dog/Cat/Person through object, interface and union fields with and "
+              "without type-conditioned fragments, Strict and Fast validation; the response policy must be at least as restrictive as the combination of the "
+              "hints of everything the response contains (per the reference executor's trace) and equal to it for object-only selections; header rendering and "
+              "real batches are judged too. Combination laws are complete over a 12-policy grid (144 pairs, 1728 triples x 6 orders x 2 groupings).",
+              "exhaustive applies to the law grid only (extra combination_laws). Only error-free responses equal to the reference are judged; exactness only where the "
+              "static and run-time readings of 'contains' agree. Four known findings exclude selections on abstract types, named fragments below them, and unexecuted operations."),
+    "C22": _p("vh-exec", "offline join, by response path, of the views resolvers recorded (selection_set walked recursively; look_ahead probed for every field name) with the resolver events of the same run and the harness AST",
+              "Exploration: generated documents (named/inline/nested fragments, @skip/@include from literals, variables, defaulted variables; aliases, repeated keys, "
+              "variables in arguments) on S1 and random dynamic schemas; every resolver that ran below a field must be listed in both views with its written "
+              "arguments (variables substituted); no view lists more occurrences of a selection than the document keeps after directives.",
+              "'Resolved arguments' = written arguments with variables substituted; schema defaults are not demanded of a view. Unresolved-but-kept entries are accepted."),
     "C21": _p("vh-gate", "sentinel scanner over the text the real Logger / Tracing / stringify_execute_doc produce",
               "Exploration: generated documents place unique sentinels in every secret position; the monitor scans the real logged text at three observation points.",
               "A leak is a substring match of a sentinel placed in a secret position; non-secret sentinels are counted to show the monitor sees real text."),
